@@ -53,6 +53,7 @@ type spec struct {
 	drop                []string            // parameters that are not translated (sdk.Context); any use is an error
 	skip                []string            // source prefixes of statements declared effect-only (replaced by a comment)
 	flat                map[string][]string // struct-typed parameter / read variable -> its fields, each becomes a parameter `p_Field`
+	plainPanics         bool                // string panics of this function are declared NOT overflow-class
 	reads               []string            // source prefixes of calls that READ state (`x, found := k.GetX(ctx, id)`): the statement
 	//                                         is dropped and the variables it defines become parameters of the Lean function
 }
@@ -61,6 +62,7 @@ var specs = []spec{
 	{pkg: "x/liquidity/amm", fn: "Withdraw", lean: "ammWithdraw"},
 	{pkg: "x/liquidity/amm", fn: "Deposit", lean: "ammDeposit"},
 	{pkg: "x/liquidity/amm", fn: "InitialPoolCoinSupply", lean: "ammInitialPoolCoinSupply"},
+	{pkg: "x/liquidity/amm", fn: "OfferCoinAmount", lean: "ammOfferCoinAmount", plainPanics: true},
 	{pkg: "x/rewards/keeper", fn: "SplitTotalAmountPerEpoch", lean: "splitTotalAmountPerEpoch"},
 	{pkg: "x/liquidationsV2/types", fn: "GetSliceStartEndForLiquidations", lean: "sliceStartEndV2"},
 	{pkg: "x/liquidation/types", fn: "GetSliceStartEndForLiquidations", lean: "sliceStartEndV1"},
@@ -150,13 +152,17 @@ func init() {
 // kind of a Go type: the Lean type it is represented by, "" if unsupported
 func leanType(t types.Type) string {
 	t = types.Unalias(t)
+	switch {
+	case isI64(t):
+		return "Int"
+	case isU64(t):
+		return "Nat"
+	}
 	switch t.String() {
-	case mth + "Int", "*math/big.Int", "int", "int64":
+	case mth + "Int", "*math/big.Int":
 		return "Int"
 	case mth + "LegacyDec":
 		return "Dec"
-	case "uint64":
-		return "Nat"
 	case "bool", "error": // an error value is represented by "is not nil"
 		return "Bool"
 	}
@@ -177,8 +183,15 @@ func (t *tr) isErrVar(o types.Object) bool {
 		(isErr(v.Type()) || types.Unalias(v.Type()).String() == "*cosmossdk.io/errors.Error")
 }
 
-func isU64(t types.Type) bool { return types.Unalias(t).String() == "uint64" }
-func isI64(t types.Type) bool { s := types.Unalias(t).String(); return s == "int" || s == "int64" }
+// machine integers, incl. named types over them (`type OrderDirection int`)
+func isU64(t types.Type) bool { return t != nil && types.Unalias(t).Underlying().String() == "uint64" }
+func isI64(t types.Type) bool {
+	if t == nil {
+		return false
+	}
+	s := types.Unalias(t).Underlying().String()
+	return s == "int" || s == "int64"
+}
 
 // a zero value of this type is a nil big.Int: using it before an assignment panics
 func nilable(t types.Type) bool {
@@ -876,8 +889,32 @@ func (t *tr) ifStmt(ind int, s *ast.IfStmt) {
 }
 
 func (t *tr) switchStmt(ind int, s *ast.SwitchStmt) {
-	if s.Init != nil || s.Tag != nil {
-		t.fail(s, "switch with init or tag")
+	if s.Init != nil {
+		t.fail(s, "switch with an init statement")
+	}
+	tag := ""
+	if s.Tag != nil { // the tag is evaluated once; cases must be constants of a machine integer type
+		if ty := t.info.TypeOf(s.Tag); !isI64(ty) && !isU64(ty) {
+			t.fail(s.Tag, "switch on a value of type %s", ty)
+		}
+		tag = t.fresh("tag__")
+		t.line(ind, "let %s := %s", tag, t.expr(s.Tag))
+	}
+	caseCond := func(cc *ast.CaseClause) string {
+		if tag == "" {
+			if len(cc.List) != 1 {
+				t.fail(cc, "switch: one condition per case")
+			}
+			return t.cond(cc.List[0])
+		}
+		var alts []string
+		for _, e := range cc.List {
+			if tv := t.info.Types[e]; tv.Value == nil {
+				t.fail(e, "switch: case that is not a constant")
+			}
+			alts = append(alts, tag+" = "+t.expr(e))
+		}
+		return strings.Join(alts, " ∨ ")
 	}
 	var cases []*ast.CaseClause
 	var def *ast.CaseClause
@@ -890,8 +927,8 @@ func (t *tr) switchStmt(ind int, s *ast.SwitchStmt) {
 		}
 		if cc.List == nil {
 			def = cc
-		} else if def != nil || len(cc.List) != 1 {
-			t.fail(cc, "switch: default must be last, one condition per case")
+		} else if def != nil {
+			t.fail(cc, "switch: default must be last")
 		} else {
 			cases = append(cases, cc)
 		}
@@ -901,7 +938,7 @@ func (t *tr) switchStmt(ind int, s *ast.SwitchStmt) {
 	var outEnds []bool
 	for i, cc := range cases {
 		t.unset = copyOf(in)
-		t.line(ind+i, "if %s then", t.cond(cc.List[0]))
+		t.line(ind+i, "if %s then", caseCond(cc))
 		t.block(ind+i+1, cc.Body)
 		t.line(ind+i, "else")
 		outs, outEnds = append(outs, t.unset), append(outEnds, ends(cc.Body))
@@ -1068,10 +1105,10 @@ func (t *tr) exprStmt(ind int, s *ast.ExprStmt) {
 	}
 	if id, ok := c.Fun.(*ast.Ident); ok && id.Name == "panic" {
 		if _, isB := t.info.Uses[id].(*types.Builtin); isB {
-			if tv := t.info.Types[c.Args[0]]; tv.Value != nil || types.Unalias(tv.Type).String() == "string" {
+			if tv := t.info.Types[c.Args[0]]; (tv.Value != nil || types.Unalias(tv.Type).String() == "string") && !t.sp.plainPanics {
 				t.fail(s, "panic with a string value (could be an overflow-class panic)")
 			}
-			t.line(ind, "GoSem.goPanic")
+			t.line(ind, "GoSem.goPanic -- %s", t.src(c))
 			return
 		}
 	}
